@@ -109,6 +109,23 @@ pub struct Streams {
     pub consumer: Rng,
 }
 
+/// The program a case actually executes: the case's program, or — when the case says
+/// `"dfs": true` in its extra parameters — the same program as the body of one `dfs { .. }` block
+/// (every disjunction in it is then searched depth-first: mplus_dfs / bind_dfs instead of
+/// mplus / bind). Oracles keep reading `case.program`: for terminating programs the answer multiset
+/// does not depend on the search order.
+pub fn exec_program(case: &Case) -> Program {
+    wrap_dfs_if(&case.program, case.extra["dfs"].as_bool() == Some(true))
+}
+
+pub fn wrap_dfs_if(p: &Program, dfs: bool) -> Program {
+    if dfs {
+        Program { nq: p.nq, defs: p.defs.clone(), body: vec![G::Dfs(p.body.clone())] }
+    } else {
+        p.clone()
+    }
+}
+
 pub fn streams(seed: u64, property: &str, index: u64) -> Streams {
     let s = case_seed(seed, property, index);
     Streams {
